@@ -206,6 +206,25 @@ where
                 }
             }
         }
+        // hypot with one argument whose real part is exactly zero but whose derivative parts are not
+        // (its square still contributes y'^2/|x| to the second-order parts)
+        {
+            let mut s0 = gen_slots(&mut rng, &b, 1.0, 0, T::IS_F32);
+            s0[0] = if rng.bool() { 0.0 } else { -0.0 };
+            let y0: T = build_all(&shape, &s0);
+            let (tx, ty) = (Tr::exact(Jet::from_slots(&b, &sx), &b), Tr::exact(Jet::from_slots(&b, &s0), &b));
+            let m = tx.mul(&tx, &b).add(&ty.mul(&ty, &b)).func(Func::Sqrt, &b);
+            let (want, mag) = m.slots(&b);
+            for (which, g) in [("second", p(&ComplexField::hypot(x.clone(), y0.clone()))), ("first", p(&ComplexField::hypot(y0.clone(), x.clone())))] {
+                acc.observe(&format!("model:hypot[zero-real {} argument]|{}", which, tname), true);
+                for s in 0..g.len() {
+                    if !((g[s] - want[s]).abs() <= K * u * mag[s]) {
+                        acc.violate(format!("model:hypot-zero-real:{}", tname), format!("hypot on {} with a zero real part in the {} argument, part {}: {:e}, model {:e}", tname, which, s, g[s], want[s]), json!({"type": tname, "shape": shape.name(), "x": floats(&sx), "y": floats(&s0)}));
+                        break;
+                    }
+                }
+            }
+        }
         // ---------------------------------------------------------------- (4) selections
         let signs = [1.0, -1.0, 0.0, -0.0];
         let sr = *rng.choose(&signs) * rng.logu(0.5, 2.0);
